@@ -1279,3 +1279,105 @@ Proof.
       * destruct (negb (send_allowed (s_perms s) stream)); [exact I|]. destruct (aget (s_pubs s) stream); exact I.
       * destruct (sub_get s _ stream); exact I.
 Qed.
+
+(* ------------------------------------------------------------------ every step keeps the invariant *)
+Lemma opt_pair_eqb_refl k : opt_pair_eqb (Some k) (Some k) = true.
+Proof. cbn. apply pair_eqb_refl. Qed.
+Lemma opt_pair_eqb_eq a b : opt_pair_eqb a b = true -> a = b.
+Proof.
+  destruct a as [x|], b as [y|]; cbn; try discriminate; [|reflexivity].
+  intros H. destruct (pair_eqb_spec x y); [congruence|discriminate].
+Qed.
+
+Lemma inv_init limits gated : Inv (init limits gated).
+Proof.
+  assert (Hn : forall sid, get_sess (init limits gated) sid = None) by reflexivity.
+  constructor.
+  - intros tok [].
+  - intros sid s tok Hs. rewrite Hn in Hs. discriminate.
+  - constructor.
+  - constructor; [intros sid s tok Hs; rewrite Hn in Hs; discriminate|intros tok []].
+  - constructor; intros; rewrite Hn in *; discriminate.
+  - intros sid s Hs. rewrite Hn in Hs. discriminate.
+Qed.
+
+Theorem inv_step h o : WF h -> Inv h -> Inv (fst (step h o)).
+Proof.
+  intros W I.
+  assert (Hrel : forall h', Rel none1 h h' -> Inv h') by (intros h' R; now apply (inv_rel h)).
+  assert (Hws : forall c (f : conn -> N -> session -> hub * list out),
+            (forall cn sid s, aget (h_conns h) c = Some cn -> get_sess h sid = Some s -> Inv (fst (f cn sid s))) ->
+            Inv (fst (with_session h c f))).
+  { intros c f Hf. unfold with_session. destruct (aget (h_conns h) c) as [cn|] eqn:Hc; [|exact I].
+    destruct (c_sess cn) as [sid|]; [|exact I]. destruct (get_sess h sid) as [s|] eqn:Hs; [|exact I]. eauto. }
+  destruct o as [c addr|c hl|c rn rs rep|c to tag|c to tag|c|c|secs|b signas room q|c q|c to mk stream media|tok ok|c kindn key val|pos]; cbn [step].
+  - destruct (aget (h_conns h) c); [exact I|]. apply Hrel. rel_ns.
+  - destruct (aget (h_conns h) c) as [cn|]; [|exact I]. destruct (c_sess cn); [exact I|]. apply Hrel.
+    match goal with |- Rel _ _ (fst (do_hello ?hh _ _ _)) => apply rel_trans with hh; [rel_ns|apply rel_do_hello] end.
+  - (* join: the reply may set new permissions; the publishers are then checked against them *)
+    apply Hws. intros cn sid s Hc Hs.
+    destruct (do_join_both h c sid s rn rs rep Hs) as [R1 Hroom].
+    destruct (do_join h c sid s rn rs rep) as [h1 o1] eqn:H1. cbn [fst] in R1, Hroom.
+    assert (Hno : ~ join_sets_perms h sid s rn rep -> Inv h1).
+    { intros Hn. apply Hrel. eapply rel_weaken; [|exact R1]. intros x [_ Hx]. contradiction. }
+    destruct rep as [[pm|] su|code]; cbv iota beta.
+    + destruct (get_sess h1 sid) as [s1|] eqn:Hs1; cbv iota beta.
+      * match goal with |- context [if ?cnd then _ else _] => destruct cnd eqn:Hcnd end.
+        -- destruct (revoke h1 sid) as [h2 o2] eqn:H2. cbn [fst]. pose proof (fst_eq _ _ _ H2) as E2.
+           eapply (inv_rel_xs _ h); [eapply rel_trans; [exact R1|rewrite E2; apply rel_revoke]|exact I|].
+           intros x s' [-> _] Hs' _. rewrite E2 in Hs'. eapply revoke_establishes; eauto.
+        -- cbn [fst]. apply Hno. intros J. pose proof J as (Jrn & Jint & Jin & _).
+           assert (E1 : s_room s1 = Some (s_backend s, rn)) by (apply Hroom; auto).
+           assert (E3 : s_room s <> Some (s_backend s, rn)).
+           { intros E. destruct (wf_room _ _ h W sid s _ Hs E) as [[]|[r [Hr Hm]]]. rewrite Hr in Jin. apply nmem_In in Hm. congruence. }
+           rewrite E1, opt_pair_eqb_refl, Jint in Hcnd. destruct (N.eqb_spec rn 0); [contradiction|]. cbn in Hcnd.
+           destruct (opt_pair_eqb (s_room s) (Some (s_backend s, rn))) eqn:E4; [apply opt_pair_eqb_eq in E4; contradiction|discriminate].
+      * cbn [fst]. apply (inv_rel_xs _ h h1 R1 I). intros x s' [-> _] Hs'. congruence.
+    + apply Hno. intros (_ & _ & _ & p & su0 & H). discriminate.
+    + apply Hno. intros (_ & _ & _ & p & su0 & H). discriminate.
+  - apply Hws. intros. apply Hrel, rel_do_message.
+  - apply Hws. intros cn sid s _ _. destruct (allowed_control s); [apply Hrel, rel_do_message|exact I].
+  - destruct (aget (h_conns h) c) as [cn|]; [|exact I]. destruct (c_sess cn); [apply Hrel, rel_send_conn|exact I].
+  - destruct (aget (h_conns h) c) as [cn|]; [|exact I]. cbv zeta.
+    destruct (c_sess cn) as [sid|]; [|apply Hrel; rel_ns].
+    destruct (get_sess (set_conns h (adel (h_conns h) c)) sid) as [s|] eqn:Hs; [|apply Hrel; rel_ns]. cbn [fst].
+    apply Hrel. peel. peel. apply rel_trans with (set_conns h (adel (h_conns h) c)); [rel_ns|].
+    apply rel_put with s; [exact Hs|reflexivity].
+  - apply Hrel, rel_do_tick.
+  - destruct (negb (N.eqb b signas) || (h_nb h <=? b)); [exact I|]. apply Hrel, rel_do_api.
+  - apply Hws. intros cn sid s Hc Hs. destruct (is_internal (s_kind s)); [apply Hrel; now apply rel_do_internal|exact I].
+  - apply Hws. intros. now apply inv_do_media.
+  - now apply inv_do_mcudone.
+  - apply Hws. intros cn sid s Hc Hs. destruct (s_room s) as [k|]; [|exact I].
+    destruct (negb (allowed_transient s)); [exact I|]. destruct (room_of h k) as [r|]; [|exact I]. cbv zeta.
+    destruct (N.eqb kindn 0).
+    + destruct (aget (r_transient r) key) as [v|].
+      * destruct (N.eqb v val); [exact I|]. apply Hrel. apply rel_fold_sessions; [rel_ns|]. intros. apply rel_send_session.
+      * apply Hrel. apply rel_fold_sessions; [rel_ns|]. intros. apply rel_send_session.
+    + destruct (aget (r_transient r) key); [|exact I]. apply Hrel. apply rel_fold_sessions; [rel_ns|]. intros. apply rel_send_session.
+  - now apply inv_deliver_at.
+Qed.
+
+Lemma inv_drain fuel : forall h, Inv h -> Inv (fst (drain fuel h)).
+Proof.
+  induction fuel as [|f IH]; intros h I; cbn [drain]; [exact I|].
+  destruct (h_bus h); [exact I|].
+  destruct (deliver_at h 0) as [h1 o1] eqn:H1. destruct (drain f h1) as [h2 o2] eqn:H2. cbn [fst].
+  rewrite (fst_eq _ _ _ H2). apply IH. rewrite (fst_eq _ _ _ H1). now apply inv_deliver_at.
+Qed.
+
+Theorem inv_qstep h o : WF h -> Inv h -> Inv (fst (qstep h o)).
+Proof.
+  intros W I. unfold qstep. destruct (step h o) as [h1 o1] eqn:H1. destruct (drain 500 h1) as [h2 o2] eqn:H2. cbn [fst].
+  rewrite (fst_eq _ _ _ H2). apply inv_drain. rewrite (fst_eq _ _ _ H1). now apply inv_step.
+Qed.
+
+Theorem inv_run ops : forall h, WF h -> Inv h -> Inv (run h ops).
+Proof. induction ops as [|o r IH]; intros h W I; cbn [run]; [exact I|]. apply IH; [now apply wf_step|now apply inv_step]. Qed.
+Theorem inv_qrun ops : forall h, WF h -> Inv h -> Inv (qrun h ops).
+Proof. induction ops as [|o r IH]; intros h W I; cbn [qrun]; [exact I|]. apply IH; [now apply wf_qstep|now apply inv_qstep]. Qed.
+
+Theorem inv_reachable limits gated ops : Inv (run (init limits gated) ops).
+Proof. apply inv_run; [apply wf_init|apply inv_init]. Qed.
+Theorem inv_reachable_q limits gated ops : Inv (qrun (init limits gated) ops).
+Proof. apply inv_qrun; [apply wf_init|apply inv_init]. Qed.
